@@ -234,6 +234,20 @@ pub async fn run_suite(seed: u64, cases: usize) -> String {
           },
           _ => "call=-".into(),
         };
+        // the modulator must be told the sender's own username and exactly the client's bytes, whatever the frame claims
+        if let Some(rest) = call.strip_prefix("call=") {
+          if rest != "-" && !rest.starts_with('x') {
+            let mut it = rest.splitn(2, '|');
+            let (from, bytes) = (it.next().unwrap_or(""), it.next().unwrap_or(""));
+            if from != u {
+              fails.push(format!("C17: [forged-from] {u}'s MOD_DIRECT reached the modulator as from={from}"));
+              fails.push(format!("C07: [forged-from] {u}'s MOD_DIRECT reached the modulator as from={from}"));
+            }
+            if bytes != hex(&payload) {
+              fails.push(format!("C17: [direct-payload-changed] {u}'s MOD_DIRECT payload reached the modulator as {bytes}"));
+            }
+          }
+        }
         let _ = writeln!(t, "c2s {} {} {} {outcome}", xhex(u.as_bytes()).trim_start_matches('x'), id.map(|i| i.to_string()).unwrap_or("-".into()), hex(&payload));
         let _ = writeln!(t, "impl {rs} | {call}");
         *stats.entry("c2s".into()).or_insert(0) += 1;
